@@ -724,6 +724,11 @@ func (q *PathQuery) Find() *Witness {
 		push(q.Fn.Blocks[0], nil, fresh())
 	}
 	for _, e := range q.FromEdges {
+		// a path may not cross a cut edge, so it cannot start by crossing one either (an edge on which the start fact is
+		// known only because it was established further up the chain, and which the rule excuses)
+		if cut[e] || (q.CutEdgeFn != nil && q.CutEdgeFn(e)) {
+			continue
+		}
 		entry := fresh()
 		if slot, ok := tracked[e.To()]; ok {
 			for i, p := range e.To().Preds {
